@@ -75,6 +75,16 @@ func (r *c12run) follow(name, kind string, f func() error) string {
 	return res
 }
 
+// a TCP port that is free right now
+func freePort() int {
+	l, err := net.Listen("tcp", "127.0.0.1:0")
+	if err != nil {
+		return 0
+	}
+	defer l.Close()
+	return l.Addr().(*net.TCPAddr).Port
+}
+
 func c12addr(scheme string, n int) string {
 	switch scheme {
 	case "inproc":
@@ -406,9 +416,16 @@ func c12WrongProtoPeer(c *Ctx, scheme string) {
 // TLS configuration errors can be corrected on the same listener / dialer
 func c12TLSConfig(c *Ctx) {
 	for _, scheme := range []string{"tls+tcp", "wss"} {
-		for _, variant := range []string{"no TLS configuration", "TLS configuration without a certificate", "nil *tls.Config as TLS configuration"} {
+		for vi, variant := range []string{"no TLS configuration", "TLS configuration without a certificate", "nil *tls.Config as TLS configuration",
+			"no TLS configuration", "TLS configuration without a certificate", "nil *tls.Config as TLS configuration"} {
 			c12seq++
 			r := &c12run{c: c, cas: scheme + " Listen: " + variant}
+			laddr := c12addr(scheme, c12seq)
+			if vi >= 3 {
+				// the same on a port of the application's choosing: a failed Listen must not keep the port
+				r.cas += " (fixed port)"
+				laddr = strings.Replace(laddr, ":0", fmt.Sprintf(":%d", freePort()), 1)
+			}
 			a, _ := pair.NewSocket()
 			var o map[string]interface{}
 			switch variant {
@@ -417,7 +434,7 @@ func c12TLSConfig(c *Ctx) {
 			case "nil *tls.Config as TLS configuration":
 				o = map[string]interface{}{mangos.OptionTLSConfig: (*tls.Config)(nil)}
 			}
-			l, err := a.NewListener(c12addr(scheme, c12seq), o)
+			l, err := a.NewListener(laddr, o)
 			if err != nil {
 				r.hist = append(r.hist, "NewListener -> "+vp.ErrName(err))
 				_ = a.Close()
